@@ -259,11 +259,13 @@ func runCheck(def *CheckDef, flags map[string]string) int {
 	}
 
 	// ---- confirm candidates natively ----
-	harnessDir := filepath.Join(verifDir(), "harness")
+	harnessDir := harnessDir()
 	// keep at most a few candidates per (job, label-set)
 	sort.SliceStable(cands, func(i, j int) bool { return cands[i].Job.ID < cands[j].Job.ID })
 	perKey := map[string]int{}
 	var toReplay []*candidate
+	// candidates with natively observable labels first
+	sort.SliceStable(cands, func(i, j int) bool { return observable(cands[i]) && !observable(cands[j]) })
 	for _, c := range cands {
 		k := c.Job.ID + "|" + strings.Join(c.Labels, ",")
 		perKey[k]++
@@ -459,6 +461,15 @@ func runCheck(def *CheckDef, flags map[string]string) int {
 		return 3
 	}
 	return 0
+}
+
+func observable(c *candidate) bool {
+	for _, l := range c.Labels {
+		if !engineOnlyLabels[l] {
+			return true
+		}
+	}
+	return false
 }
 
 func sampleCases(w []*engine.Fixture, cands []*candidate, n int) []interface{} {
